@@ -779,7 +779,7 @@ static void run_config(Cfg c, int level, int pair_size)
 			one(std::vector<std::pair<int, Dev> >(1, std::make_pair(f, menu[k])));
 	}
 	// zero sharings: every pair of colluding Byzantine dealers whose constant terms 1 and q-1 cancel
-	if (c.t >= 2 && 3 * 2 < c.n && P0->zero_phase() >= 0)
+	if (c.t >= 2 && 3 * c.t < c.n && P0->zero_phase() >= 0)
 		for (int f = 0; f < c.n; f++)
 			for (int g = f + 1; g < c.n; g++)
 			{
@@ -788,7 +788,7 @@ static void run_config(Cfg c, int level, int pair_size)
 				one(fl);
 			}
 	// dealer based sharing: pairs for the dealers 0, n/2, n-1 only (stated cap)
-	if (c.t >= 2 && 3 * 2 < c.n && (c.dealer < 0 || c.dealer == 0 || c.dealer == c.n / 2 || c.dealer == c.n - 1))
+	if (c.t >= 2 && 3 * c.t < c.n && (c.dealer < 0 || c.dealer == 0 || c.dealer == c.n / 2 || c.dealer == c.n - 1))
 		for (int f = 0; f < c.n; f++)
 			for (int g = f + 1; g < c.n; g++)
 			{
@@ -823,7 +823,7 @@ int main(int argc, char **argv)
 		if (!probe.CheckGroup() || !probe2.CheckGroup()) { fprintf(stdout, "{\"t\":\"error\",\"what\":\"CheckGroup rejects the harness group\"}\n"); return 2; }
 	}
 	// (5,2) and (7,3): thresholds with 2t < n <= 3t, which the sharing protocols admit; the broadcast layer then runs with the largest
-	// t' < n/3 and only faulty sets of at most t' parties are enumerated (single faults; pairs for (7,3)).  Reconstruction then
+	// t' < n/3 and only single faults are enumerated (pairs only where 3t < n).  Reconstruction then
 	// interpolates t+1 = 3 resp. 4 points (added after seeded change C15-3).
 	static const int NT[][2] = {{2, 0}, {3, 0}, {4, 0}, {5, 0}, {4, 1}, {5, 1}, {6, 1}, {7, 2}, {5, 2}, {7, 3}};
 	long only_n = A.geti("n", 0), only_t = A.geti("t", -1);
